@@ -7,9 +7,8 @@ use rayon::prelude::*;
 use serde_json::{json, Value};
 use std::collections::HashMap;
 use std::sync::atomic::{AtomicU64, Ordering};
-use vmodel::codecs::{acc_step, cobs_decode_frame, AccOut};
+use vmodel::codecs::{acc_step, AccOut};
 use vmodel::shape::{Shape, Val};
-use vmodel::spec::spec_decode;
 
 #[derive(Clone, Debug)]
 pub enum Target {
@@ -95,14 +94,16 @@ fn predict(cap: usize, shape: &Shape, pending: &[u8], chunk: &[u8]) -> (Obs, Vec
     (obs, np)
 }
 
-/// decoding of one zero-terminated segment in isolation (frame = bytes before the zero)
+/// decoding of one zero-terminated segment in isolation (frame = bytes before the zero): the real
+/// `from_bytes_cobs` on a fresh copy of the segment - exactly the property's "identical to decoding
+/// each segment in isolation"
 pub fn isolated(shape: &Shape, frame: &[u8]) -> ObsKind {
-    match cobs_decode_frame(frame) {
-        Err(()) => ObsKind::DeserError,
-        Ok(payload) => match spec_decode(shape, &payload).result {
-            Ok((v, _)) => ObsKind::Success(v),
-            Err(_) => ObsKind::DeserError,
-        },
+    let mut seg = frame.to_vec();
+    seg.push(0);
+    let r = trap(|| with_shape(shape, || postcard::from_bytes_cobs::<Dyn>(&mut seg)));
+    match r {
+        Ok(Ok(Dyn(v))) => ObsKind::Success(v),
+        _ => ObsKind::DeserError,
     }
 }
 
